@@ -1279,6 +1279,12 @@ void readin (void)
 
 	skelout(false);	/* [0.0] Make hook macros available, silently */
 
+	/* -L / %option noline: trace lines recorded before the option was
+	 * seen (and the one that introduces a %top block) must go as well.
+	 */
+	if (!ctrl.gen_line_dirs)
+		outn("m4_undefine([[M4_HOOK_TRACE_LINE_FORMAT]])m4_dnl");
+
 	comment("A lexical scanner generated by flex\n");
 
 	/* Dump the %top code. */
